@@ -1,0 +1,84 @@
+//go:build verif
+
+package verifapi
+
+import (
+	"errors"
+
+	"github.com/glebziz/fs_db/internal/utils/async"
+	"github.com/glebziz/fs_db/internal/utils/grpc/streamwriter"
+)
+
+// ReadWriter is the asynchronous read-writer behind the inline Create.
+type ReadWriter = async.VerifReadWriter
+
+// NewReadWriter returns a fresh read-writer with one pending storing side
+// (Add(1)), exactly as the inline Create prepares it. The caller plays the
+// storing goroutine: Read until EOF, SetError on failure, then Done.
+func NewReadWriter() ReadWriter {
+	rw := async.VerifNewReadWriter()
+	rw.Add(1)
+
+	return rw
+}
+
+type chunkReq struct{ b []byte }
+
+type chunkResp struct{}
+
+// chunkStream is an in-memory client stream recording a copy of every chunk.
+type chunkStream struct {
+	chunks   [][]byte
+	maxSends int
+	closed   bool
+}
+
+var errTooManySends = errors.New("verifapi: stream writer does not terminate (too many sends)")
+
+func (s *chunkStream) Send(req *chunkReq) error {
+	if len(s.chunks) >= s.maxSends {
+		return errTooManySends
+	}
+	s.chunks = append(s.chunks, append([]byte{}, req.b...))
+
+	return nil
+}
+
+func (s *chunkStream) CloseAndRecv() (*chunkResp, error) {
+	s.closed = true
+
+	return &chunkResp{}, nil
+}
+
+// StreamChunks pushes writes through the real stream writer of the external
+// client (chunk size chunkSize) over a recording in-memory stream, closes it,
+// and returns the chunks that were sent. A writer that would send forever is
+// cut off with an error after (total bytes + number of writes + 16) sends.
+func StreamChunks(chunkSize int, writes [][]byte) (chunks [][]byte, err error) {
+	total := 0
+	for _, w := range writes {
+		total += len(w)
+	}
+
+	s := &chunkStream{maxSends: total + len(writes) + 16} //nolint:mnd
+	w := streamwriter.New(chunkSize, s, func(p []byte) *chunkReq {
+		return &chunkReq{b: p}
+	})
+
+	for _, p := range writes {
+		_, err = w.Write(p)
+		if err != nil {
+			return s.chunks, err
+		}
+	}
+
+	err = w.Close()
+	if err != nil {
+		return s.chunks, err
+	}
+	if !s.closed {
+		return s.chunks, errors.New("verifapi: stream was not closed")
+	}
+
+	return s.chunks, nil
+}
